@@ -70,6 +70,13 @@ class PyObj:
         self.kind, self.val = kind, val
 
 
+class Vec:
+    """a numpy elementwise expression over 1-D arrays: length + (index term -> element term)"""
+
+    def __init__(self, length, at):
+        self.length, self.at = length, at
+
+
 class State:
     def __init__(self, env=None, heap=None, pc=None, old=None, facts=None):
         self.env = env if env is not None else {}
@@ -329,7 +336,12 @@ class Engine:
                 rk = z3.ToReal(rk)
             st.pc.append(z3.ForAll([i_, k_], cell == rk * ci, patterns=[cell]))
             return out
-        if isinstance(a, PyObj) or isinstance(b, PyObj) or isinstance(a, Ref) or isinstance(b, Ref):
+        if (isinstance(a, (Vec, Ref)) or isinstance(b, (Vec, Ref))) and not isinstance(a, (PyObj, tuple)) \
+                and not isinstance(b, (PyObj, tuple)) and (self.as_vec(st, a) is not None or self.as_vec(st, b) is not None) \
+                and isinstance(op, (ast.Add, ast.Sub)):
+            return self.vec_op(st, a, b, lambda x, y: self.arith(op, x, y, st, line, guard), line, guard)
+        if isinstance(a, PyObj) or isinstance(b, PyObj) or isinstance(a, Ref) or isinstance(b, Ref) \
+                or isinstance(a, (Vec, tuple)) or isinstance(b, (Vec, tuple)):
             raise Unsupported("arithmetic on non-scalar at line %s" % line)
         if isinstance(a, bool):
             a = int(a)
@@ -346,6 +358,14 @@ class Engine:
         if isinstance(op, ast.Sub):
             return a - b
         if isinstance(op, ast.Mult):
+            if is_z3(a) and is_z3(b) and getattr(self.contract, "abstract_mul", False) \
+                    and not z3.is_int_value(a) and not z3.is_rational_value(a) \
+                    and not z3.is_int_value(b) and not z3.is_rational_value(b):
+                # A-mul: a product of two symbolic terms is an application of an uninterpreted function (a sound
+                # abstraction for proving; no property of multiplication is used)
+                ra = z3.ToReal(a) if z3.is_int(a) else a
+                rb = z3.ToReal(b) if z3.is_int(b) else b
+                return z3.Function("amul", R, R, R)(ra, rb)
             return a * b
         if isinstance(op, ast.Div):
             self.emit("%s.safety.div@L%s" % (self.fn_key.split("::")[-1], line - self.fndef.lineno), "safety", st, to_z3(b) != 0, line, guard, note="division by non-zero")
@@ -407,6 +427,11 @@ class Engine:
         out = []
         for op, rn in zip(node.ops, node.comparators):
             right = self.ev(rn, st, guard)
+            if (isinstance(left, Vec) or isinstance(right, Vec) or
+                    (isinstance(left, Ref) and self.ref_ndim(st, left) == 1 and self.spec_depth == 0) or
+                    (isinstance(right, Ref) and self.ref_ndim(st, right) == 1 and self.spec_depth == 0)) \
+                    and len(node.ops) == 1:
+                return self.vec_op(st, left, right, lambda x, y, op=op: to_bool(self.cmp(op, x, y)), node.lineno, guard)
             out.append(self.cmp(op, left, right))
             left = right
         if len(out) == 1:
@@ -440,6 +465,30 @@ class Engine:
 
     def ev_Tuple(self, node, st, guard):
         return tuple(self.ev(e, st, guard) for e in node.elts)
+
+    def ev_List(self, node, st, guard):
+        # a list literal that is only read (e.g. passed to vdot): modelled as an immutable tuple
+        return tuple(self.ev(e, st, guard) for e in node.elts)
+
+    def as_vec(self, st, v):
+        if isinstance(v, Vec):
+            return v
+        if isinstance(v, Ref) and self.ref_ndim(st, v) == 1:
+            arr = self.sel(st, v)
+            return Vec(self.ref_len(st, v), lambda i, arr=arr: z3.Select(arr, i))
+        return None
+
+    def vec_op(self, st, a, b, fn, line, guard):
+        va, vb = self.as_vec(st, a), self.as_vec(st, b)
+        from pyvc import externals
+        externals.USED.add("numpy elementwise operation on 1-D arrays")
+        if va is not None and vb is not None:
+            self.emit("%s.safety.samelen@L%s" % (self.fn_key.split("::")[-1], line - self.fndef.lineno), "safety", st,
+                      va.length == vb.length, line, guard, note="elementwise operation on arrays of equal length")
+            return Vec(va.length, lambda i: fn(va.at(i), vb.at(i)))
+        if va is not None:
+            return Vec(va.length, lambda i: fn(va.at(i), b))
+        return Vec(vb.length, lambda i: fn(a, vb.at(i)))
 
     def ev_Subscript(self, node, st, guard):
         if self.spec_depth == 0:
@@ -755,11 +804,36 @@ class Engine:
         val = self.ev(s.value, st)
         for t in s.targets:
             self.assign(t, val, st, s.lineno)
+            self.after_assign(t, st, s.lineno)
         return [("normal", st, None)]
+
+    def after_assign(self, t, st, line):
+        """cut-point equalities on a freshly assigned local: proved, then the local is re-bound to the spec-level term"""
+        if not isinstance(t, ast.Name):
+            return
+        spec = (getattr(self.contract, "after_assign", None) or {}).get(t.id)
+        if not spec:
+            return
+        fn = self.fn_key.split("::")[-1]
+        val = st.env[t.id]
+        if isinstance(val, tuple):
+            if len(spec) != len(val):
+                raise ContractError("after_assign %s: length mismatch" % t.id)
+            new = []
+            for k, (v, src) in enumerate(zip(val, spec)):
+                term = self.evc(src, st)
+                self.emit("%s.after_assign.%s[%d]" % (fn, t.id, k), "assert", st, self.cmp(ast.Eq(), v, term), line, note=src)
+                new.append(term)
+            st.env[t.id] = tuple(new)
+        else:
+            term = self.evc(spec if isinstance(spec, str) else spec[0], st)
+            self.emit("%s.after_assign.%s" % (fn, t.id), "assert", st, self.cmp(ast.Eq(), val, term), line, note=str(spec))
+            st.env[t.id] = term
 
     def st_AnnAssign(self, s, st):
         if s.value is not None:
             self.assign(s.target, self.ev(s.value, st), st, s.lineno)
+            self.after_assign(s.target, st, s.lineno)
         return [("normal", st, None)]
 
     def st_AugAssign(self, s, st):
@@ -1069,6 +1143,9 @@ class Engine:
         inputs = {}
         for p in list(c.params) + list(c.ghost):
             ty = c.params.get(p) or c.ghost[p]
+            if ty.kind == "obj":
+                st.env[p] = PyObj("object", p)
+                continue
             if ty.kind in ("arr", "list"):
                 ref = self.new_array(st, "in_" + p, ty.elem, ty.ndim, kind=ty.kind)
                 st.env[p] = ref
@@ -1089,6 +1166,8 @@ class Engine:
                 st.env[gv] = self.new_array(st, "ghost_" + gv, ho.elem, ho.ndim, shape=ho.shape, arr=self.sel(st, v))
             else:
                 st.env[gv] = v
+        for hsrc in getattr(c, "entry_hints", None) or []:
+            st.pc.append(to_bool(self.evc(hsrc, st)))
         entry = State(dict(st.env), dict(st.heap), list(st.pc), None)
         st.old = entry
         outcomes = self.run_block(self.fndef.body, st)
@@ -1126,7 +1205,7 @@ class Engine:
                 p2.old = entry
                 # parameters in postconditions denote their ENTRY values for scalars, current heap for arrays
                 for p in c.param_names:
-                    if not isinstance(entry.env[p], Ref):
+                    if not isinstance(entry.env[p], (Ref, PyObj)):
                         p2.env[p] = entry.env[p]
                 goal = to_bool(self.evc(src, p2))
                 self.emit("%s.ensures.%s" % (fn, name), "postcondition", p2, goal, note=src)
